@@ -313,7 +313,7 @@ class Session:
         os.remove(os.path.join(self.proj, rel))
 
     # ------------------------------------------------------------------
-    def gwf(self, args, input=None, cwd=None, env=None, backend_flag=None):
+    def gwf(self, args, input=None, cwd=None, env=None, backend_flag=None, cwd_on_path=False):
         """Run `gwf <args>` in-process from `cwd` (default: project dir)."""
         from click.testing import CliRunner
 
@@ -414,6 +414,8 @@ class Session:
             gl.Client.connect = classmethod(_refuse)
         os.chdir(cwd or self.proj)
         self.last_cwd = os.getcwd()
+        if cwd_on_path:
+            sys.path.insert(0, "")  # as under `python -m ...` / PYTHONPATH=. : the invoking directory is searched for modules first
         _AUDIT["events"] = []
         _AUDIT["on"] = True
         try:
@@ -424,6 +426,10 @@ class Session:
             _AUDIT["on"] = False
             os.chdir(saved_cwd)
             sys.path[:] = saved_path
+            for _name, _m in list(sys.modules.items()):  # helper modules a workflow file imported from this session's directories
+                _f = getattr(_m, "__file__", None)
+                if _f and os.path.realpath(_f).startswith(os.path.realpath(self.dir) + os.sep):
+                    del sys.modules[_name]
             root.handlers = saved_handlers
             root.setLevel(saved_level)
             click._compat.isatty = saved_isatty
